@@ -612,7 +612,7 @@ def judgeRepmat : P Verdict := do
   let dt ← match At with
     | some a => if a.consistent then pure (some (a.numRows, a.numCols, a.toDense)) else return .fail s!"{name}:csr" s!"{repr a}"
     | none => pure none
-  if (outs % 2 == 1) != dm.isSome || (outs / 2 % 2 == 1) != dt.isSome then return .fail name "requested outputs missing"
+  if corr != "correct=?" && ((outs % 2 == 1) != dm.isSome || (outs / 2 % 2 == 1) != dt.isSome) then return .fail name "requested outputs missing"
   match dm, dt with
   | some (r, c, M), some (r', c', Mt) =>
     if !(r == c' && c == r' && transpose r c M == Mt) then return .fail s!"{name}:transpose" "matrix and transpose outputs differ"
@@ -633,7 +633,8 @@ def judgeRepmat : P Verdict := do
   if nF < 0 then return someForest s!"{name}:noforest"
   let T := F.filterMap g.edge?
   let isSF := decide F.Nodup && isSpanningForest g T
-  if (corr == "correct=1") != isSF then
+  -- the command-line tools do not report the flag ("correct=?")
+  if corr != "correct=?" && (corr == "correct=1") != isSF then
     return .fail s!"{name}:flag" s!"forest correctness reported {corr}, model says {isSF}"
   if !isSF then return someForest s!"{name}:incorrect-forest"
   -- coforest: given order if complete, else the contract fixes only the set of columns
